@@ -4,7 +4,7 @@ patch="$1"; shift
 cd /verif
 git -C /repo apply "$patch" || { echo "patch does not apply"; exit 3; }
 for p in "$@"; do
-  ./check "$p" quick > /var/tmp/seedtest.$p.out 2>&1; rc=$?
+  VERIF_EVIDENCE_DIR=/var/tmp/seedtest_ev ./check "$p" quick > /var/tmp/seedtest.$p.out 2>&1; rc=$?
   echo "[$p] rc=$rc: $(grep -E '^VIOLATION|^UNDECIDED' /var/tmp/seedtest.$p.out | head -3 | cut -c1-220 | tr '\n' '|')"
 done
 git -C /repo checkout -- . 
